@@ -57,6 +57,33 @@ def handle (cmd : String) (j : J) : Except String J :=
       let (ps, comp) := slicePositions v f
       pure (J.obj [("spans", J.arr (f.spans.map mspanJ)), ("reversed", J.bool f.reversed),
                    ("pos", J.arr (ps.map J.num)), ("comp", J.bool comp)])
+  | "feature_any" => do
+    -- any stride: feature map + positions through `viewPosAny`
+    let v ← parseView (← j.get "view")
+    match featureOnView v (← (← j.get "minus").toBool) (← parseSpans (← j.get "spans")) with
+    | .error e => pure (errJ e)
+    | .ok f =>
+      let (ps, comp) := slicePositionsAny v f
+      pure (J.obj [("spans", J.arr (f.spans.map mspanJ)), ("reversed", J.bool f.reversed),
+                   ("pos", J.arr (ps.map J.num)), ("comp", J.bool comp)])
+  | "copyview" => do
+    match copyView (← parseView (← j.get "view")) with
+    | .ok w => pure (J.obj [("start", J.num w.start), ("stop", J.num w.stop), ("step", J.num w.step),
+                            ("offset", J.num w.offset), ("seq_len", J.num w.seqLen)])
+    | .error _ => pure (J.obj [("err", J.str "error")])
+  | "getslice_new" => do
+    -- new-style `_mapped`: guard + residues
+    let v ← parseView (← j.get "view")
+    let parent ← (← j.get "parent").toStr
+    let comp : Char → Char := fun c =>
+      if c = 'A' then 'T' else if c = 'T' then 'A' else if c = 'C' then 'G' else if c = 'G' then 'C' else c
+    let s : SeqWrap.Seq := { parent := parent.toList, v := v, nucleic := true }
+    match featureOnView v (← (← j.get "minus").toBool) (← parseSpans (← j.get "spans")) with
+    | .error e => pure (errJ e)
+    | .ok f =>
+      match getSliceNew comp s f with
+      | .ok t => pure (J.str (String.ofList t))
+      | .error e => pure (errJ e)
   | "makefeature" => do
     -- `Sequence.make_feature` called directly (user-facing) with view-relative spans, well-formed or not
     let L ← (← j.get "L").toInt
